@@ -84,6 +84,14 @@ def signed_totals(ctx: Ctx):
     a negative total as "nothing to apportion"."""
     from ..stmts import reachable_functions, resolver
 
+    # positive control (the expected count on the correct tree is zero)
+    ctl = ast.parse("def base_values(self):\n    sums = self._cube_measures.cube_sum.sums\n    total = np.nansum(sums)\n    if total <= 0:\n        return np.full(sums.shape, np.nan)\n    return sums / total\n").body[0]
+    res_ = resolver(ctl, multi=True)
+    seen_ctl = [c for c in ast.walk(ctl) if isinstance(c, ast.Compare) and isinstance(c.ops[0], ast.LtE) and any("sum" in u(v).lower() for v in res_(c.left))]
+    if len(seen_ctl) != 1:
+        from ..loader import AnalysisError
+
+        raise AnalysisError("signed-total: the positive control is no longer recognised")
     n, hits = 0, []
     for short, cname in ((SM, "_ShareSum"), (MM, "_ColumnShareSum"), (MM, "_RowShareSum"), (MM, "_TotalShareSum")):
         ci = ctx.repo.cls(short, cname)
